@@ -37,6 +37,7 @@ var queries = []string{
 	`$.a.b`, `$.xs[@.k.Greater(1)].name`, `{OR,$.a.b.Equal(1),$.s.Contains("x")}`, `$.xs.Select("$.k").Sum()`, `$.xs.k.Sum(1,2)`,
 	`$.s.Left(2)`, `$.missing?.IsNull()`, `$.xs.Count()`, `$.a.b.Add($.xs.First().k)`, `$.xs.Select("$.name.Prefix(\"n\")")`, `$.a.Equal(`, ``, `$.s.DoesMatchRegex("^h")`,
 	`$.xs.AsJSON()`, `$.a.b.AsJSON()`, `$.a.AsJSON()`, `$.xs.k.Sum().AsJSON()`,
+	`$.xs.Select("$.name")`, `$.xs.Select("$.k.Add(1)").Sum()`, `$.xs.Select("$.name.Suffix(\"1\")")`, `$.xs.Select("$.k").Count()`, `$.xs.Select("$.k.Greater(1)")`, `$.xs.Select("$.name.Left(1)")`,
 	`$.s.DoesMatchRegex($.p)`, `$.s.ReplaceRegex($.p,"<$0>")`, `$.xs.Select("$.name.DoesMatchRegex(\"n[0-9]\")")`, `$.a.RemoveKeysByRegex($.p)`, `$.s.Equal("unterminated`, `$.s.Equal('ab'))`,
 }
 
@@ -134,10 +135,23 @@ func main() {
 		for i, q := range queries {
 			ops[i], _ = mpath.ParseString(q)
 		}
+		// every third round is a storm on one feature: all goroutines evaluate nothing but Select with a
+		// handful of different sub-queries (whatever Select shares between calls is hit from all sides)
+		var selectOps []int
+		for i, q := range queries {
+			if strings.Contains(q, ".Select(") {
+				selectOps = append(selectOps, i)
+			}
+		}
+		storm := rounds%3 == 1
 		plans := make([][]call, *g)
 		for t := range plans {
 			for i := 0; i < *n; i++ {
 				var c call
+				if storm {
+					plans[t] = append(plans[t], call{kind: "do", op: selectOps[rng.Intn(len(selectOps))], data: rng.Intn(2 * len(shared))})
+					continue
+				}
 				switch rng.Intn(3) {
 				case 0:
 					c = call{kind: "parse", q: queries[rng.Intn(len(queries))]}
@@ -165,7 +179,7 @@ func main() {
 					case 1:
 						c = call{kind: "validate", q: vqueries[rng.Intn(len(vqueries))], schema: rng.Intn(len(schemas)), cur: "s1"}
 					default:
-						c = call{kind: "do", op: 16 + rng.Intn(5), data: rng.Intn(len(shared))}
+						c = call{kind: "do", op: 22 + rng.Intn(5), data: rng.Intn(len(shared))}
 					}
 				}
 				plans[t] = append(plans[t], c)
